@@ -84,6 +84,7 @@ pub fn err_msg(s: &str) -> ErrMsg { unimplemented!() }
 
 #[verifier::external_body] pub struct Gc { _p: () }
 pub uninterp spec fn gc_gen(g: Gc) -> Generation;
+pub uninterp spec fn gc_limit(g: Gc) -> usize;               // the `memory_limit` field
 impl Gc {
     #[verifier::external_body]
     pub fn generation(&self) -> (r: Generation) ensures r == gc_gen(*self) { unimplemented!() }
@@ -337,9 +338,9 @@ impl<'gc> Cloner<'gc> {
 impl Gc {
     // Gc::new(generation, memory_limit) (constructor: fields set as given, ASSUMED) and the two field reads
     #[verifier::external_body]
-    pub fn new(generation: Generation, memory_limit: usize) -> (r: Gc) ensures gc_gen(r) == generation { unimplemented!() }
+    pub fn new(generation: Generation, memory_limit: usize) -> (r: Gc) ensures gc_gen(r) == generation, gc_limit(r) == memory_limit { unimplemented!() }
     #[verifier::external_body]
-    pub fn memory_limit(&self) -> usize { unimplemented!() }
+    pub fn memory_limit(&self) -> (r: usize) ensures r == gc_limit(*self) { unimplemented!() }
 }
 
 
